@@ -1,9 +1,72 @@
-From Coq Require Import List ZArith Bool Arith.
+(* Props/C17.v — C17: the de Bruijn-grid generator yields a planar edge-to-edge rhombus tiling.
+   PARTIAL, checker-level: the generator (cos/sin/inv/argsort on irrational data) is not modelled; the theorems
+   state what the exact checker check_rhombus_tiling establishes about an output lattice when it answers [true].
+   The harness runs the extracted checker on every generated output.  NOT covered by a theorem: "for all offsets"
+   (explored, not proved); that the plaquettes found by Lattice.find_all_plaquettes are all bounded faces (Euler's
+   theorem / C01); the 36/72 degree classification for five bundles (python census in the harness). *)
+From Coq Require Import List ZArith Bool Arith QArith.
 From Koala Require Import Model.Lattice Model.Tiling2 Proofs.Tiling2Facts.
 Import ListNotations.
 Open Scope Z_scope.
+
+(* clause "connected": the search succeeds only if every vertex is joined to vertex 0 by a path of edges *)
+Theorem C17_bfs_connected_sound : forall L, connected_check L = true ->
+  forall v, (v < nV L)%nat -> reach L 0%nat v.
+Proof. exact bfs_connected_sound. Qed.
+Print Assumptions C17_bfs_connected_sound.
+
+(* clause "no two edges cross": any point (rational coordinates, exact) common to two distinct edges is the
+   position of a common end vertex *)
+Theorem C17_no_crossing_sound : forall L, no_crossing_check L = true ->
+  forall e f, (e < f)%nat -> (f < nE L)%nat -> meet_only_at_common_vertex L (edge_at L e) (edge_at L f).
+Proof. exact no_crossing_sound. Qed.
+Print Assumptions C17_no_crossing_sound.
+
+(* clause "every plaquette is a rhombus": a closed 4-gon with four equal sides and non-degenerate diagonals
+   (guaranteed by "no two vertices coincide") has equal opposite side vectors *)
+Theorem C17_rhombus_exact : forall P0 P1 P2 P3 : vec,
+  norm2 (vsub P1 P0) = norm2 (vsub P2 P1) ->
+  norm2 (vsub P2 P1) = norm2 (vsub P3 P2) ->
+  norm2 (vsub P3 P2) = norm2 (vsub P0 P3) ->
+  P0 <> P2 -> P1 <> P3 ->
+  vsub P1 P0 = vsub P2 P3 /\ vsub P2 P1 = vsub P3 P0.
+Proof. exact rhombus_exact. Qed.
+Print Assumptions C17_rhombus_exact.
+
+(* all clauses: what acceptance by the checker means (float positions: equal lengths / parallelogram /
+   star directions hold up to the stated tolerance tn/td, everything else exactly) *)
+Theorem C17_check_rhombus_tiling_sound : forall tn td use_dirs dirs L,
+  check_rhombus_tiling tn td use_dirs dirs L = true ->
+  wf_lattice L = true /\ 0 <= tn /\ 0 < td /\
+  (forall c, In c (crossing L) -> c = vzero) /\
+  (forall e, In e (edges L) -> fst e <> snd e) /\
+  NoDup (pos L) /\
+  (forall v, (v < nV L)%nat -> (2 <= count_ends L v)%nat) /\
+  (forall p, In p (pos L) -> 0 <= fst p <= scale L /\ 0 <= snd p <= scale L) /\
+  (forall v, (v < nV L)%nat -> reach L 0%nat v) /\
+  (forall e f, (e < f)%nat -> (f < nE L)%nat -> meet_only_at_common_vertex L (edge_at L e) (edge_at L f)) /\
+  (exists e0 rest, edges L = e0 :: rest /\ 0 < len2 L e0 /\
+     (forall e, In e (edges L) -> Z.abs (len2 L e - len2 L e0) * td <= tn * len2 L e0) /\
+     exists ps, find_all_plaquettes L = Some ps /\
+       (forall p, In p ps -> face_P tn td (len2 L e0) L p) /\
+       Z.of_nat (nV L) - Z.of_nat (nE L) + Z.of_nat (length ps) = 1) /\
+  (use_dirs = true -> forall e, In e (edges L) ->
+     exists d, In d dirs /\ parallel_P tn td (vsub (pos_at L (snd e)) (pos_at L (fst e))) d).
+Proof. exact check_rhombus_tiling_sound. Qed.
+Print Assumptions C17_check_rhombus_tiling_sound.
 
 (* clause "V-E+F=1": arithmetic on the counts *)
 Theorem C17_euler_count : forall V E F : Z, V - E + F = 1 <-> F = E - V + 1.
 Proof. exact euler_count. Qed.
 Print Assumptions C17_euler_count.
+
+(* ---- non-vacuity: koala's actual output de_brujin_grid(5, 3) (43 vertices, 72 edges, 30 rhombi; float64
+   positions as exact dyadics), tolerance 1e-9, star directions of 3 bundles: the checker accepts *)
+Definition ex_tiling : lattice := mkLattice 18014398509481984
+  [(4953959590107548, 16027616289139560); (3940649673949185, 14272512030539918); (4953959590107546, 12517407771940276); (3940649673949184, 10762303513340634); (4953959590107544, 9007199254740994); (3940649673949182, 7252094996141352); (4953959590107544, 5496990737541711); (3940649673949180, 3741886478942070); (4953959590107542, 1986782220342428); (6980579422424270, 16027616289139560); (7993889338582632, 14272512030539916); (5967269506265908, 14272512030539916); (6980579422424269, 12517407771940276); (7993889338582630, 10762303513340634); (5967269506265907, 10762303513340634); (6980579422424268, 9007199254740994); (7993889338582629, 7252094996141352); (5967269506265906, 7252094996141352); (6980579422424266, 5496990737541711); (7993889338582628, 3741886478942069); (5967269506265904, 3741886478942069); (6980579422424265, 1986782220342428); (10020509170899356, 14272512030539916); (11033819087057716, 12517407771940276); (9007199254740992, 12517407771940276); (10020509170899354, 10762303513340634); (11033819087057714, 9007199254740992); (9007199254740992, 9007199254740992); (10020509170899352, 7252094996141352); (11033819087057714, 5496990737541710); (9007199254740990, 5496990737541710); (10020509170899350, 3741886478942069); (13060438919374440, 12517407771940276); (14073748835532800, 10762303513340634); (12047129003216078, 10762303513340634); (13060438919374438, 9007199254740992); (14073748835532800, 7252094996141351); (12047129003216076, 7252094996141351); (13060438919374436, 5496990737541710); (16100368667849524, 10762303513340634); (17113678584007884, 9007199254740992); (15087058751691162, 9007199254740992); (16100368667849522, 7252094996141351)]
+  [(9, 0)%nat; (10, 11)%nat; (12, 2)%nat; (13, 14)%nat; (15, 4)%nat; (16, 17)%nat; (18, 6)%nat; (19, 20)%nat; (21, 8)%nat; (22, 10)%nat; (23, 24)%nat; (25, 13)%nat; (26, 27)%nat; (28, 16)%nat; (29, 30)%nat; (31, 19)%nat; (32, 23)%nat; (33, 34)%nat; (35, 26)%nat; (36, 37)%nat; (38, 29)%nat; (39, 33)%nat; (40, 41)%nat; (42, 36)%nat; (7, 8)%nat; (6, 20)%nat; (18, 19)%nat; (16, 30)%nat; (28, 29)%nat; (26, 37)%nat; (35, 36)%nat; (33, 41)%nat; (39, 40)%nat; (5, 6)%nat; (4, 17)%nat; (15, 16)%nat; (13, 27)%nat; (25, 26)%nat; (23, 34)%nat; (32, 33)%nat; (3, 4)%nat; (2, 14)%nat; (12, 13)%nat; (10, 24)%nat; (22, 23)%nat; (1, 2)%nat; (0, 11)%nat; (9, 10)%nat; (42, 40)%nat; (36, 41)%nat; (35, 33)%nat; (26, 34)%nat; (25, 23)%nat; (13, 24)%nat; (12, 10)%nat; (2, 11)%nat; (1, 0)%nat; (38, 36)%nat; (29, 37)%nat; (28, 26)%nat; (16, 27)%nat; (15, 13)%nat; (4, 14)%nat; (3, 2)%nat; (31, 29)%nat; (19, 30)%nat; (18, 16)%nat; (6, 17)%nat; (5, 4)%nat; (21, 19)%nat; (8, 20)%nat; (7, 6)%nat]
+  [(0, 0); (0, 0); (0, 0); (0, 0); (0, 0); (0, 0); (0, 0); (0, 0); (0, 0); (0, 0); (0, 0); (0, 0); (0, 0); (0, 0); (0, 0); (0, 0); (0, 0); (0, 0); (0, 0); (0, 0); (0, 0); (0, 0); (0, 0); (0, 0); (0, 0); (0, 0); (0, 0); (0, 0); (0, 0); (0, 0); (0, 0); (0, 0); (0, 0); (0, 0); (0, 0); (0, 0); (0, 0); (0, 0); (0, 0); (0, 0); (0, 0); (0, 0); (0, 0); (0, 0); (0, 0); (0, 0); (0, 0); (0, 0); (0, 0); (0, 0); (0, 0); (0, 0); (0, 0); (0, 0); (0, 0); (0, 0); (0, 0); (0, 0); (0, 0); (0, 0); (0, 0); (0, 0); (0, 0); (0, 0); (0, 0); (0, 0); (0, 0); (0, 0); (0, 0); (0, 0); (0, 0); (0, 0)].
+Definition ex_dirs : list vec := [(1152921504606846976, 0); ((-576460752303423232), 998459311558907264); ((-576460752303424000), (-998459311558906880))].
+
+Example C17_check_nonvacuous : check_rhombus_tiling 1 1000000000 true ex_dirs ex_tiling = true.
+Proof. vm_compute. reflexivity. Qed.
